@@ -37,6 +37,12 @@ func Items(k int) []Item {
 	for _, q := range cyq.Dataflow(dopt) {
 		out = append(out, Item{Text: q.Text, Source: "dataflow", Features: q.Features})
 	}
+	// function calls at every arity (texts the parser rejects are dropped by the consumers), several staged paths
+	for _, q := range cyq.Calls() {
+		if _, err := cyq.Parse(q.Text); err == nil {
+			out = append(out, Item{Text: q.Text, Source: "calls", Features: q.Features})
+		}
+	}
 	for _, c := range cyq.Corpus() {
 		out = append(out, Item{Text: c.Text, Params: c.Params, Source: c.Source})
 	}
